@@ -271,7 +271,31 @@ fn typed_point_repeats_predecessor(h: &HitObject) -> bool {
     cps.windows(2).enumerate().any(|(i, w)| w[0].pos == w[1].pos && (w[1].path_type.is_some() || (i > 0 && w[0].path_type.is_some())))
 }
 
+/// F15 is only accepted as the explanation when the same file with the map's `Mode` announced
+/// before the first section header round-trips cleanly.
+fn mode_first_variant_passes(bytes: &[u8], m1: &Beatmap) -> bool {
+    let Ok(text) = std::str::from_utf8(bytes) else { return false };
+    let mut out = String::new();
+    let mut done = false;
+    for line in text.split_inclusive('\n') {
+        if !done && Section::try_from_line(line.trim_end()).is_some() {
+            out.push_str(&format!("[General]\nMode: {}\n", mode_idx(m1.mode)));
+            done = true;
+        }
+        out.push_str(line);
+    }
+    if !done {
+        return false;
+    }
+    let r = prop_rt_inner(out.as_bytes(), false);
+    r.starts_with("OK")
+}
+
 pub fn prop_rt(bytes: &[u8]) -> String {
+    prop_rt_inner(bytes, true)
+}
+
+fn prop_rt_inner(bytes: &[u8], explain: bool) -> String {
     let (mut m1, _t, mut m2) = match roundtrip(bytes) {
         Ok(x) => x,
         Err(e) => return format!("FAIL {e}"),
@@ -293,7 +317,10 @@ pub fn prop_rt(bytes: &[u8]) -> String {
                 return "OK velocity-drift<=4ulp".to_owned();
             }
             let mut tags = Vec::new();
-            if mode_after {
+            if !explain {
+                return format!("FAIL {d}");
+            }
+            if mode_after && mode_first_variant_passes(bytes, &m1) {
                 tags.push("mode-record-after-timing-or-object-lines");
             }
             if m1.audio_file.contains("//") || m1.background_file.contains("//") {
